@@ -251,6 +251,8 @@ impl BlockWrite for RollingWriter {
             let (file_number, file) =
                 if let Some(next_file_number) = self.directory.files.next(&self.file_number) {
                     let file = self.directory.open_file(&next_file_number)?;
+                    // This file may have been created, but not sized, right before a crash.
+                    file.set_len(FILE_NUM_BYTES as u64)?;
                     (next_file_number, file)
                 } else {
                     let next_file_number = self.directory.files.inc(&self.file_number);
